@@ -90,4 +90,244 @@ theorem SeqCtxR.distinguishableR (h : SeqCtxR M r rhi items) (hr0 : rhi ≠ some
   · exact .inl ⟨by simpa using k1, any_nz_false k2⟩
   · exact .inr ⟨by simpa using k1, by simpa using k2, any_nz_false k3, any_nz_false k4⟩
 
+/-- a refusal of the port for one entry of `paths` on a flat sequence, any root range, any variant: the two
+    particles have the same name and are in an in-iteration or a wrap-around conflict -/
+theorem SeqCtxR.pairErr_some (h : SeqCtxR M r rhi items) (hr0 : rhi ≠ some 0) {p1 midl p2 : List FItem}
+    {it jt : FItem} (hsplit : items = (p1 ++ it :: midl) ++ jt :: p2) {err : CMErr}
+    (hp : M.pairErr jt.id [r] ⟨M.key it.id, it.id, [r]⟩ = some err) :
+    it.name = jt.name ∧ (Bad1 it midl ∨ Bad2 rhi p1 jt p2) := by
+  have hit : it ∈ items := by rw [hsplit]; simp
+  have hjt : jt ∈ items := by rw [hsplit]; simp
+  have hids := h.ids
+  rw [hsplit] at hids
+  have hij : it.id ≠ jt.id := (List.pairwise_append.mp hids).2.2 it (by simp) jt (by simp)
+  unfold Ctx.pairErr at hp
+  simp only [h.consistent hit hjt, Bool.not_true, Bool.false_eq_true, if_false, h.overlap hit hjt,
+    beq_eq_false_iff_ne.mpr hij, Bool.and_false, Bool.false_or] at hp
+  by_cases hn : it.name = jt.name
+  · refine ⟨hn, ?_⟩
+    simp only [hn, beq_self_eq_true, Bool.not_true, Bool.false_eq_true, if_false] at hp
+    apply h.distinguishableR hr0 hsplit
+    apply Classical.byContradiction
+    intro hd
+    have hd' : M.distinguishable [r, it.id] [r, jt.id] = true := by simpa using hd
+    unfold Ctx.upaStep Ctx.stage1 at hp
+    by_cases hc : (M.univocal it.id = true ∧ (M.fx.repSeq = false ∨ (M.node r).hi = some 1))
+    · by_cases hs : M.fx.shared = true <;> simp [hs, hc, h.rootSeq] at hp
+    · by_cases hs : M.fx.shared = true <;> simp [hs, hc, h.rootSeq, stage2_snd, Ctx.stage2Err, hd'] at hp
+  · simp [hn] at hp
+
+/-- every error of the outer loop is the verdict of a visited particle against an EARLIER visited one -/
+theorem outer_err_split (M : Ctx) : ∀ (l : List (Nat × List Nat)) (d : List Entry) (acc : Acc)
+    (seen : List (Nat × List Nat)) (err : CMErr),
+    (∀ en ∈ d, (en.leaf, en.path) ∈ seen) → (M.outer l d acc).err = some err →
+    ∃ l1 e cp l2 en, l = l1 ++ (e, cp) :: l2 ∧ (en.leaf, en.path) ∈ seen ++ l1 ∧ M.pairErr e cp en = some err := by
+  intro l
+  induction l with
+  | nil => intro d acc seen err _ h; simp [Ctx.outer] at h
+  | cons hd rest ih =>
+    obtain ⟨e, cp⟩ := hd
+    intro d acc seen err hd h
+    unfold Ctx.outer at h
+    cases hres : M.against e cp d acc with
+    | mk acc' o =>
+      have hs := against_snd M e cp d acc
+      rw [hres] at h hs
+      cases o with
+      | some err' =>
+        simp only [Option.some.injEq] at h
+        subst h
+        obtain ⟨en, hen, hp⟩ := List.exists_of_findSome?_eq_some hs.symm
+        exact ⟨[], e, cp, rest, en, rfl, by simpa using hd en hen, hp⟩
+      | none =>
+        simp only [] at h
+        obtain ⟨l1, e2, cp2, l2, en, hl, hm, hp⟩ := ih _ acc' (seen ++ [(e, cp)]) err (by
+          intro en hen
+          rcases (mem_dictSet _ _ _).mp hen with rfl | ⟨hen, _⟩
+          · simp
+          · simp [hd en hen]) h
+        exact ⟨(e, cp) :: l1, e2, cp2, l2, en, by simp [hl], by simpa [List.append_assoc] using hm, hp⟩
+
+theorem filter_split {p : FItem → Bool} {items L1 L2 : List FItem} {it jt : FItem}
+    (h : items.filter p = L1 ++ jt :: L2) (hit : it ∈ L1) :
+    ∃ p1 midl p2, items = (p1 ++ it :: midl) ++ jt :: p2 := by
+  obtain ⟨A, B, rfl, hA, hB⟩ := List.filter_eq_append_iff.mp h
+  obtain ⟨B1, B2, rfl, _, _, _⟩ := List.filter_eq_cons_iff.mp hB
+  have : it ∈ A := by
+    have : it ∈ A.filter p := by rw [hA]; exact hit
+    exact (List.mem_filter.mp this).1
+  obtain ⟨p1, q, rfl⟩ := List.append_of_mem this
+  exact ⟨p1, q ++ B1, B2, by simp⟩
+
+/-- **M on flat sequences, any root range, every variant**: a refused model contains two particles of one name in
+    an in-iteration or a wrap-around conflict -/
+theorem SeqCtxR.refused_bad (h : SeqCtxR M r rhi items) (hr0 : rhi ≠ some 0) (lo : Nat)
+    (hacc : M.accepts (flatSeq r lo rhi items) = false) :
+    ∃ p1 it midl jt p2, items = (p1 ++ it :: midl) ++ jt :: p2 ∧ it.hi ≠ some 0 ∧ jt.hi ≠ some 0 ∧
+      it.name = jt.name ∧ (Bad1 it midl ∨ Bad2 rhi p1 jt p2) := by
+  have hv : M.visited (flatSeq r lo rhi items) = (live items).map fun it => (it.id, [r]) := by
+    simp [Ctx.visited, flatSeq, Particle.maxIsZero, Particle.leafPaths, leafPaths_mkParticles, live, hr0]
+  have herr : ∃ err, (M.outer (M.visited (flatSeq r lo rhi items)) [] {}).err = some err := by
+    simp only [Ctx.accepts, Ctx.checkModel] at hacc
+    cases hh : (M.outer (M.visited (flatSeq r lo rhi items)) [] {}).err with
+    | none => rw [hh] at hacc; simp at hacc
+    | some err => exact ⟨err, rfl⟩
+  obtain ⟨err, herr⟩ := herr
+  obtain ⟨l1, e, cp, l2, en, hl, hm, hp⟩ := outer_err_split M _ [] {} [] err (fun en hen => nomatch hen) herr
+  rw [hv] at hl
+  obtain ⟨L1, L', hL, hl1, hl'⟩ := List.map_eq_append_iff.mp hl
+  obtain ⟨jt, L2, rfl, hj, _⟩ := List.map_eq_cons_iff.mp hl'
+  simp only [List.nil_append, ← hl1, List.mem_map] at hm
+  obtain ⟨it, hit, hite⟩ := hm
+  obtain ⟨p1, midl, p2, hsplit⟩ := filter_split (p := fun it => it.hi != some 0) hL hit
+  have hitl : it.hi ≠ some 0 := by
+    have : it ∈ live items := by rw [hL]; simp [hit]
+    simpa [live] using (List.mem_filter.mp this).2
+  have hjtl : jt.hi ≠ some 0 := by
+    have : jt ∈ live items := by rw [hL]; simp
+    simpa [live] using (List.mem_filter.mp this).2
+  simp only [Prod.mk.injEq] at hj hite
+  obtain ⟨rfl, rfl⟩ := hj
+  have hp' : M.pairErr jt.id [r] ⟨M.key it.id, it.id, [r]⟩ = some err := by
+    have : en.leaf = it.id ∧ en.path = [r] := ⟨hite.1.symm, hite.2.symm⟩
+    unfold Ctx.pairErr at hp ⊢
+    simpa only [this.1, this.2] using hp
+  obtain ⟨hn, hb⟩ := h.pairErr_some hr0 hsplit hp'
+  exact ⟨p1, it, midl, jt, p2, hsplit, hitl, hjtl, hn, hb⟩
+
+/-! ### S side: the two words -/
+
+theorem lang_flatSeq_of_iters {r lo : Nat} {rhi : Option Nat} {items : List FItem} (ws : List (List ASym))
+    (hall : ∀ x ∈ ws, SeqW items x) (hlo : lo ≤ ws.length) (hhi : leHi ws.length rhi) :
+    Lang mm (flatSeq r lo rhi items).toRx ws.flatten := by
+  simp only [flatSeq, Particle.toRx, Lang]
+  exact ⟨ws, rfl, hlo, hhi, fun x hx => (lang_toSeq_iff items x).mpr (hall x hx)⟩
+
+theorem lang_flatSeq_syms {r lo : Nat} {rhi : Option Nat} {items : List FItem} {w : List ASym}
+    (h : Lang mm (flatSeq r lo rhi items).toRx w) : ∀ c ∈ w, ∃ it ∈ items, c = it.sym := by
+  simp only [flatSeq, Particle.toRx, Lang] at h
+  obtain ⟨ws, rfl, _, _, hall⟩ := h
+  intro c hc
+  obtain ⟨x, hx, hcx⟩ := List.mem_flatten.mp hc
+  exact seqW_syms ((lang_toSeq_iff items x).mp (hall x hx)) c hcx
+
+theorem leHi_two {lo : Nat} {hi : Option Nat} (hle : loLeHi lo hi = true) (h0 : hi ≠ some 0) (h1 : hi ≠ some 1) :
+    leHi (2 + (lo - 2)) hi := by
+  cases hi with
+  | none => trivial
+  | some k =>
+    simp only [loLeHi, decide_eq_true_eq] at hle
+    simp only [leHi]
+    have : k ≠ 0 := fun h => h0 (by rw [h])
+    have : k ≠ 1 := fun h => h1 (by rw [h])
+    omega
+
+theorem leHi_of_loLeHi {lo : Nat} {hi : Option Nat} (hle : loLeHi lo hi = true) : leHi lo hi := by
+  cases hi with
+  | none => trivial
+  | some k => simpa [loLeHi, leHi] using hle
+
+/-- **bad pair ⇒ conflict**, any root occurrence range other than `maxOccurs = 0` -/
+theorem flatSeq_conflict {r lo : Nat} {rhi : Option Nat} {items : List FItem}
+    (hocc : ∀ it ∈ items, loLeHi it.lo it.hi = true) (hids : items.Pairwise (fun a b => a.id ≠ b.id))
+    (hr0 : rhi ≠ some 0) (hro : loLeHi lo rhi = true) {p1 midl p2 : List FItem} {it jt : FItem}
+    (hsplit : items = (p1 ++ it :: midl) ++ jt :: p2) (hil : it.hi ≠ some 0) (hjl : jt.hi ≠ some 0)
+    (hn : it.name = jt.name) (hb : Bad1 it midl ∨ Bad2 rhi p1 jt p2) :
+    ∃ (u v1 v2 : List ASym) (a : QN) (x y : Nat), x ≠ y ∧
+      Lang mm (flatSeq r lo rhi items).toRx (u ++ (a, x) :: v1) ∧
+      Lang mm (flatSeq r lo rhi items).toRx (u ++ (a, y) :: v2) := by
+  have hmin : SeqW items (minW items) := seqW_minW items hocc
+  rcases hb with ⟨hu, hm⟩ | ⟨h1, hu, hbef, haft⟩
+  · obtain ⟨u, v1, v2, a, x, y, hxy, w1, w2⟩ := badS_conflict hocc hids
+      ⟨p1, it, midl, jt, p2, hsplit, hn, hu, hil, hjl, hm⟩
+    refine ⟨u, v1 ++ (List.replicate (lo - 1) (minW items)).flatten,
+      v2 ++ (List.replicate (lo - 1) (minW items)).flatten, a, x, y, hxy, ?_, ?_⟩
+    · have := lang_flatSeq_of_iters (r := r) (lo := lo) (rhi := rhi)
+        ((u ++ (a, x) :: v1) :: List.replicate (lo - 1) (minW items))
+        (by intro z hz; rcases List.mem_cons.mp hz with rfl | hz
+            · exact w1
+            · rw [(List.mem_replicate.mp hz).2]; exact hmin)
+        (by simp; omega) (by simpa using leHi_max_one hro hr0)
+      simpa [List.append_assoc] using this
+    · have := lang_flatSeq_of_iters (r := r) (lo := lo) (rhi := rhi)
+        ((u ++ (a, y) :: v2) :: List.replicate (lo - 1) (minW items))
+        (by intro z hz; rcases List.mem_cons.mp hz with rfl | hz
+            · exact w2
+            · rw [(List.mem_replicate.mp hz).2]; exact hmin)
+        (by simp; omega) (by simpa using leHi_max_one hro hr0)
+      simpa [List.append_assoc] using this
+  · -- wrap-around: `jt` once more, or a new iteration that starts with `it`
+    have occ : ∀ l : List FItem, (∀ m ∈ l, m ∈ items) → SeqW l (minW l) :=
+      fun l hl => seqW_minW l fun m hm => hocc m (hl m hm)
+    have hpre := occ (p1 ++ it :: midl) (fun m hm => by rw [hsplit]; exact List.mem_append_left _ hm)
+    have hp1 := occ p1 (fun m hm => by rw [hsplit]; simp [hm])
+    have hp2 := occ p2 (fun m hm => by rw [hsplit]; simp [hm])
+    have hrest := occ (midl ++ jt :: p2) (fun m hm => by
+      rw [hsplit]
+      rcases List.mem_append.mp hm with hm | hm
+      · simp [hm]
+      · rcases List.mem_cons.mp hm with rfl | hm
+        · simp
+        · simp [hm])
+    have hp1e : minW p1 = [] := minW_emptiable p1 hbef
+    have hp2e : minW p2 = [] := minW_emptiable p2 haft
+    have hjocc := hocc jt (by rw [hsplit]; simp)
+    have hiocc := hocc it (by rw [hsplit]; simp)
+    have hne : jt.id ≠ it.id := by
+      rw [hsplit] at hids
+      exact Ne.symm ((List.pairwise_append.mp hids).2.2 it (by simp) jt (by simp))
+    -- one iteration in which `jt` is taken `lo + 1` times
+    have X1 : SeqW items ((minW (p1 ++ it :: midl) ++ List.replicate jt.lo jt.sym) ++ jt.sym :: minW p2) := by
+      have hj : SeqW (jt :: p2) (List.replicate (jt.lo + 1) jt.sym ++ minW p2) :=
+        .cons (jt.lo + 1) (Nat.le_succ _) (leHi_succ_of_ne hjocc hu) hp2
+      have := seqW_append hpre hj
+      rw [List.replicate_succ'] at this
+      rw [hsplit]
+      simpa [List.append_assoc] using this
+    -- the iteration that stops after `jt` was taken `lo` times
+    have Y1 : SeqW items (minW (p1 ++ it :: midl) ++ List.replicate jt.lo jt.sym) := by
+      have hj : SeqW (jt :: p2) (List.replicate jt.lo jt.sym ++ minW p2) :=
+        .cons jt.lo (Nat.le_refl _) (leHi_of_loLeHi hjocc) hp2
+      have := seqW_append hpre hj
+      rw [hp2e, List.append_nil] at this
+      rw [hsplit]
+      exact this
+    -- the next iteration, which starts with `it`
+    have Y2 : SeqW items (it.sym :: (List.replicate (it.lo - 1) it.sym ++ minW (midl ++ jt :: p2))) := by
+      have hi : SeqW (it :: (midl ++ jt :: p2)) (List.replicate (it.lo - 1 + 1) it.sym ++ minW (midl ++ jt :: p2)) :=
+        .cons (it.lo - 1 + 1) (by omega) (leHi_max_one hiocc hil) hrest
+      have := seqW_append hp1 hi
+      rw [hp1e, List.nil_append, List.replicate_succ] at this
+      rw [hsplit]
+      simpa [List.append_assoc] using this
+    refine ⟨minW (p1 ++ it :: midl) ++ List.replicate jt.lo jt.sym,
+      minW p2 ++ (List.replicate (lo - 1) (minW items)).flatten,
+      (List.replicate (it.lo - 1) it.sym ++ minW (midl ++ jt :: p2)) ++ (List.replicate (lo - 2) (minW items)).flatten,
+      jt.name, jt.id, it.id, hne, ?_, ?_⟩
+    · have := lang_flatSeq_of_iters (r := r) (lo := lo) (rhi := rhi)
+        (((minW (p1 ++ it :: midl) ++ List.replicate jt.lo jt.sym) ++ jt.sym :: minW p2) ::
+          List.replicate (lo - 1) (minW items))
+        (by intro z hz; rcases List.mem_cons.mp hz with rfl | hz
+            · exact X1
+            · rw [(List.mem_replicate.mp hz).2]; exact hmin)
+        (by simp; omega) (by simpa using leHi_max_one hro hr0)
+      simpa [FItem.sym, List.append_assoc] using this
+    · have := lang_flatSeq_of_iters (r := r) (lo := lo) (rhi := rhi)
+        ((minW (p1 ++ it :: midl) ++ List.replicate jt.lo jt.sym) ::
+          (it.sym :: (List.replicate (it.lo - 1) it.sym ++ minW (midl ++ jt :: p2))) ::
+          List.replicate (lo - 2) (minW items))
+        (by intro z hz
+            rcases List.mem_cons.mp hz with rfl | hz
+            · exact Y1
+            · rcases List.mem_cons.mp hz with rfl | hz
+              · exact Y2
+              · rw [(List.mem_replicate.mp hz).2]; exact hmin)
+        (by simp; omega)
+        (by
+          have := leHi_two hro hr0 h1
+          have e : (List.replicate (lo - 2) (minW items)).length + 1 + 1 = 2 + (lo - 2) := by simp; omega
+          simp only [List.length_cons]
+          rw [e]; exact this)
+      simpa [FItem.sym, hn, List.append_assoc] using this
+
 end XsVerif.CM
